@@ -19,7 +19,7 @@ func cpuNow() time.Duration {
 // a suspected hang. Ordinary calls cost microseconds to milliseconds; the slowest
 // documented inputs (exponents at the +/-100000 limits) cost up to a few seconds.
 func HangBudget() time.Duration {
-	b := 40 * time.Second
+	b := 20 * time.Second
 	if s := os.Getenv("VERIF_HANG_BUDGET_S"); s != "" {
 		if n, err := strconv.Atoi(s); err == nil && n > 0 {
 			b = time.Duration(n) * time.Second
